@@ -579,24 +579,29 @@ theorem transformPoint3116_projective_reduced (t : Transform) (v : Vec) (ht : t.
   simp only [p0, p1]
 
 
-/-- (M4, partial) the public `pixman_transform_point` for `|w| ≥ 65536.0`: there are `qx, qy` such
-    that TRUE is returned iff both are representable in 16.16, and then the vector is `(qx, qy, 1.0)`
-    with each coordinate WITHIN ONE UNIT (1/65536) of the exact quotient.
-    Gap to the full property: "FALSE iff not representable" is stated for the computed `qx, qy`
-    (roundings of the precision-reduced quotient), not for the exact quotient: within one unit of
-    the int32 limit the two may differ. -/
-theorem transformPoint_within_one_partial (t : Transform) (v : Vec) (ht : t.isI32) (hv : v.isI32)
+/-- (M4, sharp form) the public `pixman_transform_point` for `|w| ≥ 65536.0`, every `int32_t` matrix and vector:
+    the call does not abort; there are integers `qx, qy` (the roundings the code computes from the
+    precision-reduced divisor) with `|qx − x/w| ≤ 1/2 + 2/65536` and `|qy − y/w| ≤ 1/2 + 2/65536` units of
+    1/65536 — the final rounding included — such that TRUE is returned iff both are representable in 16.16,
+    and then the vector is `(qx, qy, 1.0)`. -/
+theorem transformPoint_reduced_sharp (t : Transform) (v : Vec) (ht : t.isI32) (hv : v.isI32)
     (hW : ¬ (-281474976710656 ≤ dot t.m20 t.m21 t.m22 v.x v.y v.z ∧ dot t.m20 t.m21 t.m22 v.x v.y v.z < 281474976710656)) :
-    ∃ b out qx qy, transformPoint t v = some (b, out) ∧ (b = true ↔ Rep32 qx ∧ Rep32 qy) ∧
-      (b = true → out = ⟨qx, qy, 65536⟩ ∧
-        IsWithinOne qx (dot t.m00 t.m01 t.m02 v.x v.y v.z * 65536) (dot t.m20 t.m21 t.m22 v.x v.y v.z) ∧
-        IsWithinOne qy (dot t.m10 t.m11 t.m12 v.x v.y v.z * 65536) (dot t.m20 t.m21 t.m22 v.x v.y v.z)) := by
+    ∃ b out qx qy, transformPoint t v = some (b, out) ∧
+      IsWithinHalfPlus qx (dot t.m00 t.m01 t.m02 v.x v.y v.z * 65536) (dot t.m20 t.m21 t.m22 v.x v.y v.z) ∧
+      IsWithinHalfPlus qy (dot t.m10 t.m11 t.m12 v.x v.y v.z * 65536) (dot t.m20 t.m21 t.m22 v.x v.y v.z) ∧
+      (b = true ↔ Rep32 qx ∧ Rep32 qy) ∧ (b = true → out = ⟨qx, qy, 65536⟩) := by
   have h31 : is3116 v.x ∧ is3116 v.y ∧ is3116 v.z := by
     unfold Vec.isI32 isI32 at hv; unfold is3116; omega
   obtain ⟨s, s1, s2, big, e⟩ := transformPoint3116_projective_reduced t v ht h31 hW
   have hW0 : dot t.m20 t.m21 t.m22 v.x v.y v.z / (2 : Int) ^ s ≠ 0 := by unfold abs at big; split at big <;> omega
   have nx := roundHalfAway_isNearest (dot t.m00 t.m01 t.m02 v.x v.y v.z * 65536 / 2 ^ s) _ hW0
   have ny := roundHalfAway_isNearest (dot t.m10 t.m11 t.m12 v.x v.y v.z * 65536 / 2 ^ s) _ hW0
+  have ht' := ht
+  unfold Transform.isI32 at ht'
+  have bx := dot_bound t.m00 t.m01 t.m02 v ht'.1 ht'.2.1 ht'.2.2.1 hv
+  have by' := dot_bound t.m10 t.m11 t.m12 v ht'.2.2.2.1 ht'.2.2.2.2.1 ht'.2.2.2.2.2.1 hv
+  have ex := (reduced_error _ _ _ s s1 nx big (by omega)).1
+  have ey := (reduced_error _ _ _ s s1 ny big (by omega)).1
   generalize roundHalfAway (dot t.m00 t.m01 t.m02 v.x v.y v.z * 65536 / 2 ^ s) (dot t.m20 t.m21 t.m22 v.x v.y v.z / 2 ^ s) = qx at *
   generalize roundHalfAway (dot t.m10 t.m11 t.m12 v.x v.y v.z * 65536 / 2 ^ s) (dot t.m20 t.m21 t.m22 v.x v.y v.z / 2 ^ s) = qy at *
   unfold transformPoint
@@ -606,17 +611,65 @@ theorem transformPoint_within_one_partial (t : Transform) (v : Vec) (ht : t.isI3
     simp only [fx, fy, Bool.or_false, Bool.or_true, Bool.not_true, Bool.not_false, Bool.or_self]
   · rw [vx, vy]
     have ts := truncVec_spec ⟨qx, qy, 65536⟩
-    refine ⟨(truncVec _).1, (truncVec _).2, qx, qy, rfl, ?_, ?_⟩
-    · rw [ts.1]; simp only [r1, and_true]
-    · intro hb
-      have hrep := ts.1.1 hb
-      refine ⟨ts.2 hb, ?_, ?_⟩
-      · exact within_one_of_reduced _ _ qx s s1 s2 nx big (by have := hrep.1; unfold Rep32 at this; simp only at this; omega)
-      · exact within_one_of_reduced _ _ qy s s1 s2 ny big (by have := hrep.2.1; unfold Rep32 at this; simp only at this; omega)
-  · exact ⟨false, v, qx, qy, rfl, by simp [nry], by intro h; cases h⟩
-  · exact ⟨false, v, qx, qy, rfl, by simp [nrx], by intro h; cases h⟩
-  · exact ⟨false, v, qx, qy, rfl, by simp [nrx], by intro h; cases h⟩
+    refine ⟨(truncVec _).1, (truncVec _).2, qx, qy, rfl, ex, ey, ?_, ts.2⟩
+    rw [ts.1]; simp only [r1, and_true]
+  · exact ⟨false, v, qx, qy, rfl, ex, ey, by simp [nry], by intro h; cases h⟩
+  · exact ⟨false, v, qx, qy, rfl, ex, ey, by simp [nrx], by intro h; cases h⟩
+  · exact ⟨false, v, qx, qy, rfl, ex, ey, by simp [nrx], by intro h; cases h⟩
 
+/-- (M4, full) the property's "within one unit otherwise ... FALSE instead of a wrapped value", for every
+    `int32_t` matrix and vector with `|w| ≥ 65536.0`: the call never aborts;
+    TRUE ⇒ the stored vector is `(x', y', 1.0)` with `x', y'` representable and each within one unit (in fact
+    within `1/2 + 2/65536`, `transformPoint_reduced_sharp`) of the exact quotient;
+    FALSE ⇒ at least one of the exact rational quotients `x/w`, `y/w` (in 16.16 units) lies outside the closed
+    range `[INT32_MIN, INT32_MAX]` of representable values: FALSE is never returned for a point whose exact
+    image is inside the representable range, and a value that does not fit is never returned as TRUE. -/
+theorem transformPoint_within_one (t : Transform) (v : Vec) (ht : t.isI32) (hv : v.isI32)
+    (hW : ¬ (-281474976710656 ≤ dot t.m20 t.m21 t.m22 v.x v.y v.z ∧ dot t.m20 t.m21 t.m22 v.x v.y v.z < 281474976710656)) :
+    ∃ b out, transformPoint t v = some (b, out) ∧
+      (b = true → Rep32 out.x ∧ Rep32 out.y ∧ out.z = 65536 ∧
+        IsWithinOne out.x (dot t.m00 t.m01 t.m02 v.x v.y v.z * 65536) (dot t.m20 t.m21 t.m22 v.x v.y v.z) ∧
+        IsWithinOne out.y (dot t.m10 t.m11 t.m12 v.x v.y v.z * 65536) (dot t.m20 t.m21 t.m22 v.x v.y v.z)) ∧
+      (b = false →
+        ¬ (QuotInRange (dot t.m00 t.m01 t.m02 v.x v.y v.z * 65536) (dot t.m20 t.m21 t.m22 v.x v.y v.z) (-2147483648) 2147483647 ∧
+           QuotInRange (dot t.m10 t.m11 t.m12 v.x v.y v.z * 65536) (dot t.m20 t.m21 t.m22 v.x v.y v.z) (-2147483648) 2147483647)) := by
+  obtain ⟨b, out, qx, qy, e, hx, hy, hb, ho⟩ := transformPoint_reduced_sharp t v ht hv hW
+  have hW0 : dot t.m20 t.m21 t.m22 v.x v.y v.z ≠ 0 := by omega
+  refine ⟨b, out, e, ?_, ?_⟩
+  · intro h
+    have o := ho h
+    have r := hb.1 h
+    subst o
+    exact ⟨r.1, r.2, rfl, halfPlus_within_one _ _ _ hx, halfPlus_within_one _ _ _ hy⟩
+  · intro h hin
+    have nr : ¬ (Rep32 qx ∧ Rep32 qy) := by
+      intro hr; have := hb.2 hr; rw [h] at this; cases this
+    by_cases rx : Rep32 qx
+    · have ry : ¬ Rep32 qy := fun hy' => nr ⟨rx, hy'⟩
+      exact quot_out_of_range _ _ _ hW0 hy ry hin.2
+    · exact quot_out_of_range _ _ _ hW0 hx rx hin.1
+
+/-- "within one unit" cannot be sharpened to "nearest" for `|w| ≥ 65536.0`: here `w = 2^48 + 1` (32.32 units), the
+    exact quotient is `3.4999999…` units, its nearest rounding is 3, the code (and the library, replayed through
+    the harness: `point 65536 0 0 0 65536 0 0 0 12648641 229376 0 22253377` ⇒ `1 4 0 65536`) returns 4. -/
+example : transformPoint ⟨65536, 0, 0, 0, 65536, 0, 0, 0, 12648641⟩ ⟨229376, 0, 22253377⟩ = some (true, ⟨4, 0, 65536⟩) ∧
+    ¬ IsNearest 4 (dot 65536 0 0 229376 0 22253377 * 65536) (dot 0 0 12648641 229376 0 22253377) ∧
+    IsNearest 3 (dot 65536 0 0 229376 0 22253377 * 65536) (dot 0 0 12648641 229376 0 22253377) := by
+  unfold IsNearest; decide
+
+/-- the exact homogeneous coordinate is zero (no quotient exists), every `int32_t` matrix and vector: FALSE, and
+    the vector is left untouched -/
+theorem transformPoint_w_zero (t : Transform) (v : Vec) (hv : v.isI32)
+    (hw : dot t.m20 t.m21 t.m22 v.x v.y v.z = 0) : transformPoint t v = some (false, v) := by
+  have h31 : is3116 v.x ∧ is3116 v.y ∧ is3116 v.z := by
+    unfold Vec.isI32 isI32 at hv; unfold is3116; omega
+  have hA : vecAssert v = true := by simp [vecAssert, h31.1, h31.2.1, h31.2.2]
+  have r2 := row_exact t.m20 t.m21 t.m22 v
+  rw [hw] at r2
+  have hdi : rowHi t.m20 t.m21 t.m22 v + rowLo t.m20 t.m21 t.m22 v / 65536 = 0 := by omega
+  have hdf : rowLo t.m20 t.m21 t.m22 v % 65536 = 0 := by omega
+  have c1 : ¬ ((0 : Int) = fixed1) := by unfold fixed1; omega
+  simp only [transformPoint, transformPoint3116, hA, hdi, hdf, Bool.not_true, Bool.false_eq_true, if_false, c1, and_self, and_true, if_true]
 
 /-! ### non-vacuity: every hypothesis set above is satisfiable by a non-trivial value -/
 
@@ -631,10 +684,14 @@ example :=
   transformPoint_exact ⟨65536, 0, 0, 0, 65536, 0, 0, 0, 131072⟩ ⟨-3, 5, 65536⟩
     (by unfold Transform.isI32 isI32; decide) (by unfold Vec.isI32 isI32; decide) (by decide) (by decide)
 example : transformPoint ⟨65536, 0, 0, 0, 65536, 0, 0, 0, 131072⟩ ⟨-3, 5, 65536⟩ = some (true, ⟨-2, 3, 65536⟩) := by decide
--- transformPoint_within_one_partial: |w| = 2^17 · 1.0 ≥ 65536.0
+-- transformPoint_reduced_sharp / transformPoint_within_one: |w| = 2^17 · 1.0 ≥ 65536.0, TRUE
 example :=
-  transformPoint_within_one_partial ⟨65536, 0, 0, 0, 65536, 0, 0, 0, 2147483647⟩ ⟨6553600, -65536, 1073741824⟩
+  transformPoint_within_one ⟨65536, 0, 0, 0, 65536, 0, 0, 0, 2147483647⟩ ⟨6553600, -65536, 1073741824⟩
     (by unfold Transform.isI32 isI32; decide) (by unfold Vec.isI32 isI32; decide) (by decide)
+-- ... and |w| = 2^48 + 2^31 - 131073 (32.32 units) with an exact x/w of about 3·2^30 units: FALSE (the stored vector is the
+-- truncated 48.16 result; the return value is what reports the overflow)
+example : transformPoint ⟨2147483647, 2147483647, 2147483647, 0, 65536, 0, 131073, 0, 0⟩ ⟨2147483647, 2147483647, 2147483647⟩
+    = some (false, ⟨-1073766401, 32768, 65536⟩) := by decide
 -- w = 0: FALSE, vector untouched
 example : transformPoint ⟨65536, 0, 0, 0, 65536, 0, 65536, 0, -65536⟩ ⟨65536, 7, 65536⟩ = some (false, ⟨65536, 7, 65536⟩) := by decide
 -- transformPoint3d_spec
